@@ -17,7 +17,11 @@ EXTENDS Integers, Sequences
 CONSTANTS Zero, One,
           Add(_, _), Sub(_, _), Mul(_, _), Div(_, _), Neg(_), Abs(_),
           Leq(_, _),          \* <=
-          FromInt(_)
+          FromInt(_),
+          Fma(_, _, _)        \* fused multiply-add a*b + c.  In the exact instances it is Add(Mul(a, b), c); in the
+                              \* IEEE instance (bit patterns, every operation rounded) it is the single rounding
+                              \* of the exact a*b + c, which makes Estrin/HornerFma below bit-exact models of
+                              \* the nine evaluators and of PolyN::evaluate.
 
 Lss(a, b) == Leq(a, b) /\ a # b
 Two == FromInt(2)
@@ -40,8 +44,10 @@ AbsSeq(c) == [i \in 1..Len(c) |-> Abs(c[i])]
 \* sum of |c_i| |x|^i: the scale of the C01 bound
 AbsEval(c, x) == Eval(AbsSeq(c), Abs(x))
 
-\* fused multiply-add, exact in this signature
-Fma(a, b, c) == Add(Mul(a, b), c)
+\* PolyN::evaluate: iter().rev() fold with acc.mul_add(x, e)
+RECURSIVE HornerFmaFrom(_, _, _)
+HornerFmaFrom(c, x, i) == IF i = Len(c) THEN c[i] ELSE Fma(HornerFmaFrom(c, x, i + 1), x, c[i])
+HornerFma(c, x) == IF Len(c) = 0 THEN Zero ELSE HornerFmaFrom(c, x, 1)
 
 \* The nine hand-unrolled Estrin schemes, transcribed line by line from src/poly.rs
 \* (variable names as in the source).  MC_PolyAlgebra checks each against PowerSum: a
